@@ -270,8 +270,8 @@ class World:
         u = cands[0]
         self.inflight.remove(u)
         a = engine.alg_of(self.desc, alg)
-        suc = {'success': True, 'failure': False, 'invalid': None}[out]
-        vals = None
+        suc = {'success': True, 'empty': True, 'failure': False, 'invalid': None}[out]
+        vals = [] if out == 'empty' else None
         if out == 'success':
             vals = [
                 ('.'.join([str(u['run']), t, alg, sv['name'], v['name']]), (sv['name'] + '.' + v['name']) in new)
@@ -280,6 +280,8 @@ class World:
             ]
             if u['run'] > self.stored_max:
                 self.stored_max = u['run']
+        if out == 'empty' and u['run'] > self.stored_max:
+            self.stored_max = u['run']
         self.obs['reply'] = [{'alg': alg, 't': t, 'run': u['run'], 'msgid': u['msgid'], 'stale': u['stale'], 'out': out}]
         wid = self.new_worker(dawgie.context.git_rev)
         tim = dict(u['timing']) if u.get('timing') else {}
@@ -393,29 +395,24 @@ def run_job(job):
         events = list(job['events'])
         skipped = 0
         i = 0
-        drained = False
         while True:
             if i >= len(events):
-                if not job.get('drain', True) or drained:
+                if not job.get('drain', True):
                     break
-                # drain: every in-flight unit answers (success, nothing new), dispatch until nothing changes
-                extra = []
-                if w.inflight:
-                    u = w.inflight[0]
-                    extra = [{'ev': 'Reply', 'alg': u['alg'], 't': u['t'], 'out': 'success', 'new': []}]
-                else:
-                    before = json.dumps(w.snapshot(), sort_keys=True)
-                    w.obs = new_obs()
-                    w.ev_tick()
-                    obs = w.obs
-                    after = w.snapshot()
-                    steps.append({'ev': 'Tick', 'args': {'auto': 8}, 'st': after, 'obs': obs})
-                    if json.dumps(after, sort_keys=True) == before and not w.inflight:
-                        drained = True
-                    if len(steps) > 400:
-                        drained = True
+                # drain: dispatch until nothing changes, then one in-flight unit answers (success, nothing new), repeat
+                before = json.dumps(w.snapshot(), sort_keys=True)
+                w.obs = new_obs()
+                w.ev_tick()
+                obs = w.obs
+                after = w.snapshot()
+                steps.append({'ev': 'Tick', 'args': {'auto': 8}, 'st': after, 'obs': obs})
+                if json.dumps(after, sort_keys=True) != before and len(steps) < 400:
                     continue
-                events.extend(extra)
+                if w.inflight and len(steps) < 400:
+                    u = w.inflight[0]
+                    events.append({'ev': 'Reply', 'alg': u['alg'], 't': u['t'], 'out': 'success', 'new': []})
+                else:
+                    break
             e = events[i]
             i += 1
             w.obs = new_obs()
